@@ -587,6 +587,20 @@ func genC06v6(o *Out, rng *rand.Rand, tier string) {
 			}
 		}
 	}
+	// names whose labels contain '.' bytes (accepted on the wire; they must survive a re-encoding)
+	for _, lab := range [][]byte{{4, '.', 'a', 'b', 'c', 0}, {3, 'a', '.', 'b', 0}, {1, '.', 0}, {2, '.', '.', 0}, {2, 'a', '.', 3, 'c', 'o', 'm', 0},
+		{5, '.', 'c', 'o', 'r', 'p', 7, 'e', 'x', 'a', 'm', 'p', 'l', 'e', 0}, {1, 'x', 0, 2, '.', 'y', 0xc0, 0}} {
+		for _, code := range []int{24, 39, 56} {
+			p := lab
+			switch code {
+			case 39:
+				p = append([]byte{0}, lab...)
+			case 56:
+				p = append([]byte{0, 3, 0, byte(len(lab))}, lab...)
+			}
+			fix6(o, append([]byte{7, 1, 2, 3, 0, byte(code), 0, byte(len(p))}, p...), "dotted-labels")
+		}
+	}
 	for i := 0; i < n; i++ {
 		switch i % 3 {
 		case 0:
